@@ -1,12 +1,14 @@
-LEVEL = 'proof'
-MANIFEST = {'engine': 'PYVC+LEAN+BOUNDED',
- 'note': 'Bounded in k (stated); the Lean theorems are about a transcription of the loops over an abstract field. NOT proved deductively: '
-         '_Element.__mul__/inverse/_mult_gf2/_div_gf2 compute field multiplication/inversion (264-bit masks built from strings) -- assumed, covered '
-         'only by the bounded run-time contract unit shamir.field.bounded. Assumed facts about xor/field (closure, no zero divisors, commutativity) '
-         'are listed in spec/gf128.py. Trusted: PYVC model of CPython, z3, Lean kernel + Mathlib.',
- 'text': 'Deductive: Shamir.split and Shamir.combine of the current tree are symbolically executed against spec.shamir (share = Horner of k-1 '
-         'coefficients read from the entropy tape followed by the secret, + x^k for ssss; combine = Lagrange interpolation at zero in the field; '
-         'duplicate index => ValueError) over abstract field operations, through proved contracts of '
-         '_Element.__init__/__add__/__eq__/encode/__pow__, for all secrets/shares/tapes; k and n are instantiated per value (quick k<=3, thorough '
-         'k<=5) because the loops run over python lists of length k. That the formula returns the secret for EVERY k, in any order, that k-1 shares '
-         'are consistent with every secret, and that x^128+x^7+x^2+x+1 is irreducible are machine-checked Lean/Mathlib theorems.'}
+"""Check for C20: the union of the units every contract area contributes (vf/areas.py).
+Level claimed, engines and notes live in props/entries.json (tools/manifest.py generates MANIFEST.json from it)."""
+import json
+import os
+
+_E = json.load(open(os.path.join(os.path.dirname(__file__), 'entries.json'))).get('C20', {})
+LEVEL = _E.get('level', 'proof')
+TRUSTED = ['CPython semantics as modelled by PYVC (DESIGN.md 2.3)', 'z3 5.1 / cvc5 1.0.3']
+EXPLANATION = _E.get('text', '')
+
+
+def units(tier):
+    from vf.areas import collect
+    return collect('C20', tier)
